@@ -327,7 +327,7 @@ def run_cases(ctx: Ctx, family: str, corr_module: str, case_ty: str, checker: st
         if not m:
             ctx.broke("correspondence", f"{family}: unparsable result of shard {k}", out)
             continue
-        for d in re.findall(r"(\d+)%N", m.group(1)):
+        for d in re.findall(r"\d+", m.group(1).replace("%N", "")):
             bad.append(k * shard + int(d))
     ctx.cov.setdefault("traces_validated_against_impl", 0)
     ctx.cov["traces_validated_against_impl"] += len(cases)
